@@ -11,6 +11,9 @@
 #include "core/MemoryPage.h"
 #include "core/cpu_list.h"
 #include "simulate/Simulate.h"
+#include "disasm/6502.h"
+#include "disasm/65816.h"
+#include "disasm/z80.h"
 
 static uint64_t fnv(const void *p, size_t n, uint64_t h)
 {
@@ -142,6 +145,20 @@ int engine_c15(RBuf &rq)
       sim->dump_registers();
       mem_report(memory, "PREMEM");
       fflush(stdout);
+
+      // the three simulators that take the instruction length from the disassembler: what the listing
+      // says about the instruction at PC (length, text) goes into the transcript for the length clause
+      if (kind == 0 && (cpu == "6502" || cpu == "65816" || cpu == "z80"))
+      {
+        char text[128];
+        int cmin = 0, cmax = 0;
+        uint32_t pcv = sim->get_reg("pc");
+        text[0] = 0;
+        int count = cpu == "6502" ? disasm_6502(memory, pcv, text, sizeof(text), 0, &cmin, &cmax) :
+                    cpu == "65816" ? disasm_65816(memory, pcv, text, sizeof(text), 0, &cmin, &cmax) :
+                                     disasm_z80(memory, pcv, text, sizeof(text), 0, &cmin, &cmax);
+        printf("@@DISASM pc=%x count=%d text=%s\n", pcv, count, text);
+      }
 
       int ret;
       uint64_t u0 = W.hdr->usleeps;
